@@ -56,8 +56,8 @@ func InitGenesis(ctx sdk.Ctx, keeper keeper.Keeper, supplyKeeper types.AuthKeepe
 			// setup the unstaking validator
 			keeper.SetUnstakingValidator(ctx, validator)
 		}
-		// if the validator is staked then add their tokens to the staked pool
-		if validator.IsStaked() {
+		// the staked pool backs staked and unstaking validators: an unstaking validator is paid back from it at maturity
+		if validator.IsStaked() || validator.IsUnstaking() {
 			stakedTokens = stakedTokens.Add(validator.GetTokens())
 		}
 	}
